@@ -140,13 +140,13 @@ pub fn run(prop: &str, req: &str, rep: &str, outfile: &str) {
         }
     }
     // properties whose checks also run package sessions: the history oracle's failures for them
-    if ["C04", "C07", "C11", "C17", "C13"].contains(&prop) {
+    if ["C04", "C07", "C11", "C17", "C13", "C18", "C19"].contains(&prop) {
         let mut w = crate::walk::Walk::new();
         for (i, (q, r)) in reqs.iter().zip(reps.iter()).enumerate() {
             let first = q.split(' ').next().unwrap_or("");
             if ["new", "load", "create_table", "drop_table", "insert", "update", "delete", "select", "stream_write",
                 "stream_read", "stream_remove", "has_stream", "streams", "snapshot", "reopen", "flush", "raw",
-                "sum_set", "sum_clear", "set_db_cp", "remove_sig"].contains(&first)
+                "sum_set", "sum_clear", "set_db_cp", "remove_sig", "@file_edit"].contains(&first)
             {
                 w.step(i, q, r);
             }
@@ -279,6 +279,14 @@ fn oracle_c17(
                         fail(fails, i, q, r, format!("well-known tag should have code {c}"));
                     }
                 }
+            }
+            "langs_value" => {
+                // the value built from a list of languages carries every code of the list, in order
+                let want = format!("S{}", hex_of_str(t[1]));
+                if r.split(' ').next() != Some(want.as_str()) {
+                    fail(fails, i, q, r, format!("the value of the language list {} must be the text {:?} (every identifier preserved, in order)", t[1], t[1]));
+                }
+                nontrivial.insert(q.clone());
             }
             _ => {}
         }
